@@ -14,6 +14,16 @@ def Outcome.fine {α} : Outcome α → Prop
 /-- every run of `m`, from every state, ends in a value or an error -/
 def Safe {ς α} (m : M ς α) : Prop := ∀ s, (m s).2.fine
 
+theorem Safe.not_panic {ς α} {m : M ς α} (h : Safe m) {s s' : ς} {p : String} (hm : m s = (s', .panic p)) : False := by
+  have := h s
+  rw [hm] at this
+  exact this
+
+theorem Safe.not_diverge {ς α} {m : M ς α} (h : Safe m) {s s' : ς} (hm : m s = (s', .diverge)) : False := by
+  have := h s
+  rw [hm] at this
+  exact this
+
 theorem Safe.pure {ς α} (a : α) : Safe (pure a : M ς α) := fun _ => trivial
 theorem Safe.fail {ς α} (e : Err) : Safe (M.fail e : M ς α) := fun _ => trivial
 theorem Safe.get {ς} : Safe (M.get : M ς ς) := fun _ => trivial
